@@ -7,6 +7,9 @@ MACS = {"a": "00:00:00:00:0a:01", "b": "00:00:00:00:0b:01"}
 ZMAC = "00:00:00:00:0e:0e"
 ET_MISS = 0x0801            # no flow matches this ethertype
 ET_CTRL = {64: 0x88b5, 65535: 0x88b6}   # flows output:CONTROLLER(max_len)
+ET_LIST = 0x88b7            # matched only by the flow an RxL step installs for itself
+CTL_LEN = 96                # max_len of output:CONTROLLER inside an action list (Buffers!CtlLen)
+ET_OF_CLASS = dict([(0, ET_MISS), (1, ET_LIST)] + list(ET_CTRL.items()))
 
 
 def frame(f, ethertype):
@@ -15,15 +18,28 @@ def frame(f, ethertype):
 
 def act_bytes(act):
   return {"none": b"", "out2": rb.a_output(2), "flood": rb.a_output(rb.OFPP_FLOOD),
-          "inport": rb.a_output(rb.OFPP_IN_PORT), "all": rb.a_output(rb.OFPP_ALL)}[act]
+          "inport": rb.a_output(rb.OFPP_IN_PORT), "all": rb.a_output(rb.OFPP_ALL),
+          "ctl": rb.a_output(rb.OFPP_CONTROLLER, CTL_LEN), "table": rb.a_output(rb.OFPP_TABLE),
+          "rw": rb.a_dl_dst(ZMAC)}[act]
+
+
+def list_bytes(acts):
+  return b"".join(act_bytes(a) for a in acts)
+
+
+def content_bytes(tag, k):
+  fr = frame(tag[-1], ET_OF_CLASS[k])
+  return rb.mac(ZMAC) + fr[6:] if tag.startswith("Z") else fr
 
 
 class Adapter(object):
-  def __init__(self, N=3):
+  def __init__(self, N=3, ports=3, maxlens=(64, 65535)):
     self.N = N
-    self.h = Harness(dpid=1, ports=3, max_buffers=N, miss_send_len=128)
+    self.h = Harness(dpid=1, ports=ports, max_buffers=N, miss_send_len=128)
     self.h.send(rb.hello())
     for ml, et in ET_CTRL.items():
+      if ml not in maxlens:
+        continue
       self.h.send(rb.flow_mod(rb.match(wildcards=rb.FW_ALL & ~rb.FW_DL_TYPE, dl_type=et),
                               priority=100,
                               actions=rb.a_output(rb.OFPP_CONTROLLER, ml)))
@@ -36,15 +52,55 @@ class Adapter(object):
   # -- helpers
   def _ident(self, data):
     for f in FRAME_LEN:
-      for et in [ET_MISS] + list(ET_CTRL.values()):
+      for k, et in ET_OF_CLASS.items():
         if data == frame(f, et):
-          return f
+          return [f, k]
         if data == rb.mac(ZMAC) + frame(f, et)[6:]:      # the same frame with its destination rewritten
-          return "Z" + f
-    return "?" + data[:20].hex()
+          return ["Z" + f, k]
+    return ["?" + data[:20].hex(), -1]
 
   def _emitted(self):
-    return sorted([p, self._ident(b)] for p, b in self.h.take_emitted())
+    return sorted([p] + self._ident(b) for p, b in self.h.take_emitted())
+
+  def _bag(self):
+    em = [tuple([p] + self._ident(b)) for p, b in self.h.take_emitted()]
+    return sorted(list(e) + [em.count(e)] for e in set(em))
+
+  def _pins(self, msgs, held):
+    """packet-ins of one step -> spec shape; binds each announced id to the lowest slot not in `held`
+    (the slots outstanding when the step began - the spec gives a slot back when its list is done)."""
+    out = []
+    for m in msgs:
+      tag, k = ("?", -1) if len(m["data"]) < 14 else ("??", -1)   # "?": too little data to tell (miss_send_len 0)
+      for f in FRAME_LEN:                       # which frame: total length + (possibly truncated) bytes
+        for kk in ET_OF_CLASS:
+          for t in (f, "Z" + f):
+            cb = content_bytes(t, kk)
+            if m["total_len"] == len(cb) and len(m["data"]) >= 14 and m["data"] == cb[:len(m["data"])]:
+              tag, k = t, kk
+      if m["buffer_id"] == rb.NO_BUFFER:
+        buf = 0
+      elif m["buffer_id"] in self.bind:
+        buf = "DUPLICATE-ID"
+      else:
+        free = [s for s in range(1, self.N + 1) if s not in held]
+        buf = free[0] if free else "ID-BEYOND-POOL"
+        if free:
+          held.add(buf)
+          self.bind[m["buffer_id"]] = buf
+          self.lastid[buf] = m["buffer_id"]
+      out.append({"buf": buf, "total": m["total_len"], "dataLen": len(m["data"]), "inport": m["in_port"],
+                  "reason": {0: "miss", 1: "action"}.get(m["reason"], m["reason"]), "tag": tag, "k": k})
+    return out
+
+  def _list_result(self, msgs, held):
+    pins = [m for m in msgs if m["type"] == rb.PACKET_IN]
+    other = [m for m in msgs if m["type"] != rb.PACKET_IN and
+             not (m["type"] == rb.ERROR and m["etype"] == 1 and m["code"] in (7, 8))]
+    r = {"emitted": self._bag(), "pins": self._pins(pins, held)}
+    if other:
+      r["msgs"] = [m["name"] for m in other]
+    return r
 
   def _concrete(self, s):
     """concrete buffer id for spec slot s (outstanding, stale or bogus)."""
@@ -106,6 +162,35 @@ class Adapter(object):
       if msgs:
         r["msgs"] = [m["name"] for m in msgs]
       return r
+    if a in ("PacketOutL", "FlowModL"):
+      c = self._concrete(args["buf"])
+      ab = list_bytes(args["acts"])
+      held = set(self.bind.values())
+      if a == "PacketOutL":
+        data = rb.packet_out(buffer_id=c, in_port=rb.OFPP_NONE, actions=ab)
+      else:
+        self.nflows += 1
+        data = rb.flow_mod(rb.match(wildcards=rb.FW_ALL & ~(rb.FW_IN_PORT | rb.FW_DL_TYPE),
+                                    in_port=70 + (self.nflows % 3), dl_type=0x9999),
+                           priority=5, buffer_id=c, actions=ab)
+      self.bind.pop(c, None)          # used: whatever id the step announces is a new binding
+      return self._list_result(self.h.send(data), held)
+    if a == "PacketOutDataL":
+      fr = frame(args["f"], ET_MISS)
+      held = set(self.bind.values())
+      return self._list_result(self.h.send(rb.packet_out(buffer_id=rb.NO_BUFFER, in_port=args["p"],
+                                                         actions=list_bytes(args["acts"]), data=fr)), held)
+    if a == "RxL":
+      m = rb.match(wildcards=rb.FW_ALL & ~rb.FW_DL_TYPE, dl_type=ET_LIST)
+      pre = self.h.send(rb.flow_mod(m, priority=100, actions=list_bytes(args["acts"])))
+      held = set(self.bind.values())
+      self.h.rx(frame(args["f"], ET_LIST), args["p"])
+      msgs = self.h.take_msgs()
+      r = self._list_result(pre + msgs, held)
+      post = self.h.send(rb.flow_mod(m, priority=100, command=rb.FC_DELETE_STRICT))
+      if post:
+        r["msgs"] = r.get("msgs", []) + [x["name"] for x in post]
+      return r
     if a == "PacketOutData":
       fr = frame(args["f"], ET_MISS)
       msgs = self.h.send(rb.packet_out(buffer_id=rb.NO_BUFFER, in_port=args["p"],
@@ -147,6 +232,10 @@ class Adapter(object):
     raise ValueError(a)
 
   def normalize(self, obs, exp):
+    if isinstance(obs, dict) and isinstance(exp, dict) and len(obs.get("pins", [])) == len(exp.get("pins", [])):
+      for o, e in zip(obs.get("pins", []), exp.get("pins", [])):
+        if o.get("tag") == "?":          # nothing to identify the frame by: take the spec's word for it
+          o["tag"], o["k"] = e["tag"], e["k"]
     return obs
 
   def signature(self, st, obs):
@@ -161,7 +250,12 @@ class Adapter(object):
       sig["truncated"] = exp["dataLen"] < exp["total"]
       sig["buffered"] = exp["buf"] != 0
     else:
-      sig["act"] = st["args"].get("act")
+      sig["act"] = st["args"].get("act") or "/".join(st["args"].get("acts", []))
+      if "pins" in exp:
+        sig["expected_pins"] = len(exp["pins"])
+        sig["observed_pins"] = len(obs.get("pins", [])) if isinstance(obs, dict) else -1
+        if isinstance(obs, dict) and len(obs.get("pins", [])) == len(exp["pins"]):
+          sig["pin_fields"] = sorted(set(k for a, b in zip(obs["pins"], exp["pins"]) for k in b if a.get(k) != b[k]))
       sig["expected_emit"] = len(exp.get("emitted", []))
       sig["observed_emit"] = len(obs.get("emitted", [])) if isinstance(obs, dict) and "emitted" in obs else -1
     return sig
